@@ -97,6 +97,9 @@ SHAPES = {
     "badgroup": lambda c, x: c.M([("g", c.G([("a", 1)])), ("h", c.G([("a", x), ("a", 2)])), ("g", c.G([("b", 2)]))]),
     "dupgroup": lambda c, x: c.M([("g", c.G([("a", x)])), ("k", 1), ("g", c.G([("b", 2), ("b", 3)])), ("k", x)]),
     "nested": lambda c, x: c.M([("o", c.O([("p", c.O([("a", x)])), ("q", c.G([("b", x)]))]))]),
+    # groups that are not valid PDS3 groups below the top level (repeated keyword, keys differing in case, a block inside)
+    "nestedbad": lambda c, x: c.M([("o", c.O([("h", c.G([("a", x), ("a", 2)])), ("i", c.G([("b", 1), ("B", 2)])),
+                                             ("j", c.G([("k", c.G([("c", x)]))]))]))]),
     "seq": lambda c, x: c.M([("a", [x, "x y", 7])]),
     "seq2": lambda c, x: c.M([("a", [[x], [1, 2]])]),
     "set": lambda c, x: c.M([("a", c.fset([x]))]),
